@@ -94,6 +94,16 @@ Theorem C20_read_code_0_refuted : forall idn oid, 0 <= oid <= 255 -> execute cod
 Proof. exact read_code_0_raises. Qed.
 Print Assumptions C20_read_code_0_refuted.
 
+(* CONFIGURATION HISTORIES.  Whatever sequence of ModbusDeviceIdentification(info=...) constructor
+   calls, Identity.update({...}), Identity[k] = v and named-property assignments configured the
+   device, the identity the server reads is the spec's final map: the last value written per
+   object id, a blank value withdrawing the object.  (update / __setitem__ / __init__ /
+   __getitem__ / dict_property are translated or template-matched by gen_devinfo.py.)  All
+   theorems above then speak about [id_of (configured code h)]. *)
+Theorem C20_config_history : forall h, configured code h = spec_configured h.
+Proof. exact configured_spec. Qed.
+Print Assumptions C20_config_history.
+
 (* ====== list-valued (multi-item) entries and str values: the extended model DevInfoMulti.v ====== *)
 
 (* on single-valued byte-string identities the extended server IS the server above, so every
